@@ -13,7 +13,7 @@ import (
 	"verif/harness/internal/simkit"
 )
 
-const commonRule = "One case = a fresh real NFSv4.0 program (NewNFS40Program + OpenedFilesPool + NFS handle allocator + InMemoryPrepopulatedDirectory with pool-backed files wrapped by counting leaves) inside testing/synctest with a simulated clock and a counter-based random number generator. 1-3 protocol-following client simulators (client IDs, seqids, state IDs, file handles learned from replies only) issue generated COMPOUNDs: SETCLIENTID(+new verifier), SETCLIENTID_CONFIRM, RENEW, OPEN (CLAIM_NULL; nocreate/UNCHECKED/GUARDED/EXCLUSIVE; read/write/both; deny), OPEN_CONFIRM, OPEN_DOWNGRADE, CLOSE, LOCK (new / existing lock-owner), LOCKT, LOCKU, RELEASE_LOCKOWNER, READ/WRITE/SETATTR(size) with open, lock and special state IDs, REMOVE, LOOKUP, PUTFH; clock advances (also exactly at / 1ns past the lease), vanishing clients, drawn deviations (old/future/foreign/other-file/dead/wrong-prefix/special state IDs, wrong or missing file handle, old/future seqids, stale/foreign/unconfirmed client IDs, bad ranges), retransmissions (identical, other operation, other state ID), and requests parked inside VirtualOpenChild (before/after the directory) or leaf I/O while other requests, lease expiry, re-registration and duplicates arrive. A reference model (RFC 7530 state machine + per-byte lock table, fed only by requests, replies and the clock) predicts every reply status and the blocking behaviour. "
+const commonRule = "One case = a fresh real NFSv4.0 program (NewNFS40Program + OpenedFilesPool + NFS handle allocator + InMemoryPrepopulatedDirectory with pool-backed files wrapped by counting leaves) inside testing/synctest with a simulated clock and a counter-based random number generator. 1-3 protocol-following client simulators (client IDs, seqids, state IDs, file handles learned from replies only) issue generated COMPOUNDs: SETCLIENTID(+new verifier), SETCLIENTID_CONFIRM, RENEW, OPEN (CLAIM_NULL; nocreate/UNCHECKED/GUARDED/EXCLUSIVE; read/write/both; deny), OPEN_CONFIRM, OPEN_DOWNGRADE, CLOSE, LOCK (new / existing lock-owner), LOCKT, LOCKU, RELEASE_LOCKOWNER, READ/WRITE/SETATTR(size) with open, lock and special state IDs, REMOVE, LOOKUP, PUTFH; clock advances (also exactly at / 1ns past the lease), vanishing clients, drawn deviations (old/future/foreign/other-file/dead/wrong-prefix/special state IDs, wrong or missing file handle, old/future seqids, stale/foreign/unconfirmed client IDs, bad ranges), retransmissions (identical, other operation, other state ID; also of a request that is still parked, any number of identical ones waiting behind it), and requests parked inside VirtualOpenChild (before/after the directory) or leaf I/O while other requests, lease expiry, re-registration and duplicates arrive. All clients use the same open-owner / lock-owner byte strings; every owner's seqid sequence starts at a drawn value (0, 1, 2, or 2^32-3..2^32-1, so that it wraps around within the case). OPEN and READ/WRITE/SETATTR may carry a one-shot fault of the file system below the server (VirtualOpenChild fails before or after the real directory acted, file allocator fails, VirtualOpenSelf fails, leaf I/O fails). An oracle of any of the properties C14/C18/C19/C20 is fatal in every test function (the message names its property). A reference model (RFC 7530 state machine + per-byte lock table, fed only by requests, replies and the clock) predicts every reply status and the blocking behaviour. "
 
 func labelsOf(w *world) []string {
 	set := map[string]bool{}
@@ -36,7 +36,6 @@ func runCase(t *testing.T, rt *rapid.T, rec *simkit.Recorder, prof *profile) {
 	nClients := rapid.IntRange(1, 3).Draw(rt, "clients")
 	var w *world
 	var failure string
-	var aborted string
 	var rapidPanic any
 	func() {
 		defer func() {
@@ -44,7 +43,7 @@ func runCase(t *testing.T, rt *rapid.T, rec *simkit.Recorder, prof *profile) {
 				if strings.Contains(fmt.Sprint(r), "deadlock: main bubble goroutine has exited") {
 					// A request of the case never returned although
 					// everything the harness parked was released.
-					if failure == "" && aborted == "" {
+					if failure == "" {
 						failure = fmt.Sprintf("[%s] liveness: %v", prof.property, r)
 					}
 					return
@@ -63,10 +62,15 @@ func runCase(t *testing.T, rt *rapid.T, rec *simkit.Recorder, prof *profile) {
 				}
 				switch v := r.(type) {
 				case violation:
-					if v.class == prof.property {
-						failure = fmt.Sprintf("[%s] %s", v.class, v.msg)
-					} else {
-						aborted = v.class
+					// Every oracle is sound in every profile, so a
+					// violation of any class is a true violation of the
+					// tree and fatal in whichever check meets it (the
+					// profiles differ in what they make likely, and a
+					// defect may only be reachable under another
+					// property's profile). The class is reported.
+					failure = fmt.Sprintf("[%s] %s", v.class, v.msg)
+					if v.class != prof.property {
+						failure += fmt.Sprintf("\n(an oracle of property %s, met while running the %s profile of %s)", v.class, prof.name, prof.property)
 					}
 				default:
 					if strings.Contains(fmt.Sprintf("%T", r), "rapid.") {
@@ -86,6 +90,10 @@ func runCase(t *testing.T, rt *rapid.T, rec *simkit.Recorder, prof *profile) {
 			for k, v := range w.m.ev {
 				w.evMain[k] = v
 			}
+			w.labMain = map[string]int{}
+			for k, v := range w.labels {
+				w.labMain[k] = v
+			}
 			w.finish()
 		})
 	}()
@@ -95,17 +103,11 @@ func runCase(t *testing.T, rt *rapid.T, rec *simkit.Recorder, prof *profile) {
 	if failure != "" {
 		rt.Fatalf("%s\nclients=%d profile=%s\nscript:\n%s", failure, nClients, prof.name, w.script1())
 	}
-	if aborted != "" {
-		// An oracle of another property failed; that property's own
-		// test function reports it. The case does not count here.
-		rec.Label("case_aborted_by_" + aborted + "_oracle")
-		return
-	}
 	for d := range w.diags {
 		rec.Note(d)
 		rec.Label("diagnostic")
 	}
-	rec.Case(w.script, prof.nontrivial(w.evMain, w.labels), labelsOf(w)...)
+	rec.Case(w.script, prof.nontrivial(w.evMain, w.labMain), labelsOf(w)...)
 }
 
 // warmup registers the clients (and for lock-heavy profiles opens a
@@ -123,9 +125,9 @@ func (w *world) warmup() {
 				break
 			}
 			o := c.owners[k]
-			w.noteAndIssue(c, &opSpec{Kind: kOpen, ClientID: c.confirmed, FH: "root", Owner: o.key, Seq: nextSeq(o.seq), Name: "a", Access: 3, How: "unchecked"})
+			w.noteAndIssue(c, &opSpec{Kind: kOpen, ClientID: c.confirmed, FH: "root", Owner: o.key, Seq: o.nxt(), Name: "a", Access: 3, How: "unchecked"})
 			if len(o.opens) == 1 {
-				w.noteAndIssue(c, &opSpec{Kind: kOpenConfirm, FH: o.opens[0].fh, Owner: o.key, Seq: nextSeq(o.seq), Stateid: o.opens[0].sid})
+				w.noteAndIssue(c, &opSpec{Kind: kOpenConfirm, FH: o.opens[0].fh, Owner: o.key, Seq: o.nxt(), Stateid: o.opens[0].sid})
 			}
 		}
 	}
@@ -151,8 +153,24 @@ func weights(m map[string]int) []string {
 	sort.Strings(keys)
 	// Index 0 is where shrinking converges: make it a harmless probe.
 	l := []string{kLookup}
-	for _, k := range keys {
-		l = rep(l, k, m[k])
+	// rapid's integers lean towards small values, so the front of the
+	// list is drawn more often than its share. Deal the actions out
+	// round-robin (one of each kind, then one of each kind that has
+	// weight left, ...) so that the front holds a mix of all kinds
+	// instead of the alphabetically first ones.
+	left := map[string]int{}
+	for k, v := range m {
+		left[k] = v
+	}
+	for more := true; more; {
+		more = false
+		for _, k := range keys {
+			if left[k] > 0 {
+				l = append(l, k)
+				left[k]--
+				more = true
+			}
+		}
 	}
 	return l
 }
@@ -164,7 +182,7 @@ var profC18 = &profile{
 		kRead: 3, kWrite: 3, kSetattr: 1, kRemove: 2, kLookup: 1, kPutfh: 3,
 		kSetclientid: 3, kSetclientidConfirm: 4, kRenew: 1, "advance": 4, "vanish": 1, "release": 6, "retx": 1,
 	}),
-	minSteps: 30, maxSteps: 100, devPct: 10, parkPct: 15, warmPct: 90, confirmPct: 85, sharedLO: true,
+	minSteps: 30, maxSteps: 100, devPct: 10, parkPct: 15, warmPct: 90, confirmPct: 85, sharedLO: true, faultPct: 12,
 	nontrivial: func(ev, labels map[string]int) bool {
 		return (ev["open_upgrade"] > 0 || ev["downgrade"] > 0) && ev["lock_owner_cloned_share"] > 0 && (ev["reclaim_by_expiry"] > 0 || ev["reclaim_by_reregistration"] > 0)
 	},
@@ -175,40 +193,67 @@ var profC19 = &profile{
 	ops: weights(map[string]int{
 		kOpen: 8, kOpenConfirm: 6, kOpenDowngrade: 2, kClose: 5, kLock: 6, kLocku: 3, kReleaseLockowner: 1,
 		kRead: 1, kWrite: 1, kRemove: 1, kPutfh: 1,
-		kSetclientid: 1, kSetclientidConfirm: 2, kRenew: 1, "advance": 2, "release": 7,
+		kSetclientid: 1, kSetclientidConfirm: 2, kRenew: 1, "advance": 2, "release": 14,
 		"retx": 10, "retx_diff_op": 3, "retx_diff_sid": 3,
 	}),
-	minSteps: 15, maxSteps: 60, devPct: 10, parkPct: 25, warmPct: 90, confirmPct: 85, sharedLO: true,
+	minSteps: 15, maxSteps: 60, devPct: 10, parkPct: 30, warmPct: 90, confirmPct: 85, sharedLO: true, inflightRetxPct: 70, dupParkedPct: 35,
 	nontrivial: func(ev, labels map[string]int) bool {
-		return ev["replay_ok_open"] > 0 || ev["replay_ok_close"] > 0 || ev["replay_ok_lock"] > 0
+		return (ev["replay_ok_open"] > 0 || ev["replay_ok_close"] > 0 || ev["replay_ok_lock"] > 0) && labels["inflight_duplicate_got_original_reply"] > 0
 	},
 }
 
 var profC20 = &profile{
 	property: "C20", name: "locks",
 	ops: weights(map[string]int{
-		kOpen: 5, kOpenConfirm: 4, kClose: 2, kLock: 16, kLocku: 7, kLockt: 7, kReleaseLockowner: 3,
+		kOpen: 5, kOpenConfirm: 4, kClose: 2, kLock: 26, kLocku: 8, kLockt: 6, kReleaseLockowner: 3,
 		kRead: 1, kWrite: 1, kOpenDowngrade: 1,
 		kSetclientid: 1, kSetclientidConfirm: 1, kRenew: 1, "advance": 2, "release": 2, "retx": 1,
 	}),
-	minSteps: 20, maxSteps: 70, devPct: 8, parkPct: 5, warmPct: 95, warmOpen: true, confirmPct: 95, sharedLO: true,
+	minSteps: 20, maxSteps: 70, devPct: 8, parkPct: 5, warmPct: 95, warmOpen: true, confirmPct: 95, sharedLO: true, scanLocks: true,
 	nontrivial: func(ev, labels map[string]int) bool {
 		return ev["two_lock_owners_hold"] > 0 && ev["lock_split_or_merge"] > 0 && ev["lock_to_max_offset"] > 0
 	},
 }
 
+// profC14 is the general mix with many injected file system faults,
+// rejected requests and parked requests: the paths on which a lock is
+// most easily left behind.
+var profC14 = &profile{
+	property: "C14", name: "locks_released",
+	ops: weights(map[string]int{
+		kOpen: 10, kOpenConfirm: 5, kOpenDowngrade: 3, kClose: 3, kLock: 8, kLocku: 2, kLockt: 4, kReleaseLockowner: 2,
+		kRead: 4, kWrite: 4, kSetattr: 3, kRemove: 2, kLookup: 1, kPutfh: 2,
+		kSetclientid: 2, kSetclientidConfirm: 3, kRenew: 1, "advance": 3, "vanish": 1, "release": 6, "retx": 3, "retx_diff_op": 1, "retx_diff_sid": 1,
+	}),
+	minSteps: 20, maxSteps: 70, devPct: 20, parkPct: 20, warmPct: 90, confirmPct: 85, sharedLO: true, faultPct: 55, inflightRetxPct: 50, dupParkedPct: 10,
+	nontrivial: func(ev, labels map[string]int) bool {
+		faults := 0
+		for k, v := range ev {
+			if strings.HasPrefix(k, "fault_fired_") {
+				faults += v
+			}
+		}
+		return faults > 0 && labels["locks_probed_while_requests_parked"] > 0
+	},
+}
+
+func TestC14NFS40LocksReleased(t *testing.T) {
+	rec := simkit.NewRecorder(t, "C14", "nfs40_locks_released", commonRule+"Additionally OPEN and READ/WRITE/SETATTR requests carry generated one-shot faults of the file system below the server (VirtualOpenChild fails before / after the real directory acted, the file allocator fails, VirtualOpenSelf fails, leaf I/O fails; statuses EIO/EACCES/EROFS/ENXIO), 35% of them in this profile, 20% altered (rejected) requests, 20% parked. ORACLE (C14): after every request, release and clock step - with all other requests returned or parked inside the fakes, i.e. outside every lock of the code under test - TryLock probes find the NFSv4.0 program lock, the opened-files pool lock, the lock of every opened file's lock table, the NFS handle pool lock, the root directory lock and the lock of every pool-backed file free; every request the model expects to return does return (a leaked lock blocks the next request, which the model flags as 'blocked but expected to complete'; the bubble must drain); plus all C18/C19/C20 oracles (reply statuses, open accounting, record counts), so that a failed call is also known to leave the state usable. NON-TRIVIAL: at least one injected fault fired AND the locks were probed while another request was parked. Distinct by script hash.")
+	rapid.Check(t, func(rt *rapid.T) { runCase(t, rt, rec, profC14) })
+}
+
 func TestC18NFS40OpenAccounting(t *testing.T) {
-	rec := simkit.NewRecorder(t, "C18", "nfs40_accounting", commonRule+"ORACLE (C18): per counting leaf and share bit closes <= opens at all times and no VirtualRead/VirtualWrite while the leaf's count for that bit is 0; at every quiescence without requests in flight the outstanding opens per leaf/bit EQUAL the holders the replies imply (open state of every open-owner incl. upgrades/downgrades, lock-owner clones, in-flight I/O), with requests in flight they are at least that; they drop after CLOSE (+RELEASE_LOCKOWNER), confirmed re-registration, lease expiry followed by any call; an unlinked open file stays reachable by PUTFH until closed (and the CLOSE reply can no longer be retransmitted), then NFS4ERR_STALE; state IDs used with another file, client, or an old/future seqid get BAD_STATEID/OLD_STATEID/STALE_STATEID and (checked by snapshots of leaf counters, directory change ID, server record counts, opened-files pool) no side effects; VerifStateCounts == the model's record counts at every quiescence, program/pool/handle-pool/directory locks free; after all leases expired plus one call every count is zero and every unlinked file is STALE. NON-TRIVIAL: an upgrade or downgrade happened AND a lock-owner cloned a share AND open state was reclaimed by lease expiry or confirmed re-registration. Distinct by script hash.")
+	rec := simkit.NewRecorder(t, "C18", "nfs40_accounting", commonRule+"ORACLE (C18): per counting leaf and share bit closes <= opens at all times and no VirtualRead/VirtualWrite while the leaf's count for that bit is 0; at every quiescence without requests in flight the outstanding opens per leaf/bit EQUAL the holders the replies imply (open state of every open-owner incl. upgrades/downgrades, lock-owner clones, in-flight I/O), with requests in flight they are at least that; they drop after CLOSE (+RELEASE_LOCKOWNER), confirmed re-registration, lease expiry followed by any call; an unlinked open file stays reachable by PUTFH until closed (and the CLOSE reply can no longer be retransmitted), then NFS4ERR_STALE; state IDs used with another file, client, or an old/future seqid get BAD_STATEID/OLD_STATEID/STALE_STATEID and (checked by snapshots of leaf counters, directory change ID, server record counts, opened-files pool) no side effects; VerifStateCounts == the model's record counts at every quiescence, program/pool/handle-pool/directory locks free; after all leases expired plus one call every count is zero and every unlinked file is STALE; a request that fails because the file system below fails (8 fault points) leaves no open behind, releases the share it borrowed, leaves record counts as the model says, and its error reply is cached for retransmissions; the file system logs exactly the injected allocator failures. NON-TRIVIAL: an upgrade or downgrade happened AND a lock-owner cloned a share AND open state was reclaimed by lease expiry or confirmed re-registration. Distinct by script hash.")
 	rapid.Check(t, func(rt *rapid.T) { runCase(t, rt, rec, profC18) })
 }
 
 func TestC19NFS40Retransmission(t *testing.T) {
-	rec := simkit.NewRecorder(t, "C19", "nfs40_retransmission", commonRule+"ORACLE (C19): a retransmission (same owner, same seqid, same operation type and - for CLOSE/LOCK(existing owner)/LOCKU/OPEN_CONFIRM/OPEN_DOWNGRADE - same state ID) returns a result that is XDR-byte-equal (go-xdr WriteTo) to the first reply of that operation, and leaf counters, directory change ID, VerifStateCounts and the opened-files pool do not move; a retransmission arriving while the original is parked blocks, then completes with the original's reply (the bubble must drain); a seqid that is neither the last nor its successor => NFS4ERR_BAD_SEQID without side effects; the last seqid with another operation type or another state ID => NFS4ERR_BAD_SEQID, never the cached reply. Excluded (counted): two OPENs under one seqid with different arguments as 'different content' (RFC 7530 9.1.9: same request). NON-TRIVIAL: a replay of a successful OPEN, CLOSE or LOCK returned the cached reply. Distinct by script hash.")
+	rec := simkit.NewRecorder(t, "C19", "nfs40_retransmission", commonRule+"ORACLE (C19): a retransmission (same owner, same seqid, same operation type and - for CLOSE/LOCK(existing owner)/LOCKU/OPEN_CONFIRM/OPEN_DOWNGRADE - same state ID) returns a result that is XDR-byte-equal (go-xdr WriteTo) to the first reply of that operation, and leaf counters, directory change ID, VerifStateCounts and the opened-files pool do not move; a retransmission arriving while the original is parked blocks, then completes with the original's reply - also the second, third, ... identical duplicate waiting behind the same original (the bubble must drain); seqids wrap from 2^32-1 to 1 (0 is then out of order), a first seqid of 0 is accepted; a seqid that is neither the last nor its successor => NFS4ERR_BAD_SEQID without side effects; the last seqid with another operation type or another state ID => NFS4ERR_BAD_SEQID, never the cached reply. Excluded (counted): two OPENs under one seqid with different arguments as 'different content' (RFC 7530 9.1.9: same request). Excluded (counted): a waiter behind an in-progress transaction whose content differs from the waiters already there (service order would be up to the scheduler). NON-TRIVIAL: a replay of a successful OPEN, CLOSE or LOCK returned the cached reply AND a duplicate that arrived while its original was in flight completed with the original's reply (both before the final drain). Distinct by script hash.")
 	rapid.Check(t, func(rt *rapid.T) { runCase(t, rt, rec, profC19) })
 }
 
 func TestC20NFS40ByteRangeLocks(t *testing.T) {
-	rec := simkit.NewRecorder(t, "C20", "nfs40_locks", commonRule+"ORACLE (C20b): per-file per-byte lock table keyed by (client registration, lock-owner bytes) over a 33-unit compressed offset universe (bytes 0..15, gap, 16 highest offsets, ranges to 2^64-1 and length all-ones): LOCK granted <=> the model has no conflict; a DENIED reply names an owner/type/range that the model says is really held, overlaps and conflicts; LOCKT DENIED <=> the same LOCK would be denied (own locks never conflict, unknown owners conflict with everyone, unopened files never conflict); LOCKU frees exactly the bytes; CLOSE / RELEASE_LOCKOWNER / lease expiry / re-registration free exactly that open's / owner's / client's bytes; RELEASE_LOCKOWNER => NFS4ERR_LOCKS_HELD <=> the owner still holds bytes; lock state IDs and seqids as predicted. NON-TRIVIAL: two owners held locks on one file at the same time AND a split or merge of an owner's ranges happened AND a range ended at the maximum offset. Distinct by script hash.")
+	rec := simkit.NewRecorder(t, "C20", "nfs40_locks", commonRule+"ORACLE (C20b): per-file per-byte lock table keyed by (client registration, lock-owner bytes) over a 33-unit compressed offset universe (bytes 0..15, gap, 16 highest offsets, ranges to 2^64-1 and length all-ones): LOCK granted <=> the model has no conflict; a DENIED reply names an owner/type/range that the model says is really held, overlaps and conflicts; LOCKT DENIED <=> the same LOCK would be denied (own locks never conflict, unknown owners conflict with everyone, unopened files never conflict); LOCKU frees exactly the bytes; CLOSE / RELEASE_LOCKOWNER / lease expiry / re-registration free exactly that open's / owner's / client's bytes; RELEASE_LOCKOWNER => NFS4ERR_LOCKS_HELD <=> the owner still holds bytes; lock state IDs and seqids as predicted; equal owner bytes under different clients are different owners; offset+length = 2^64-1 is the largest finite range, 2^64 and beyond, length 0 and offset 2^64-1 with length 1 => NFS4ERR_INVAL, length all-ones = to end of file. TABLE READ-BACK: after every CLOSE, LOCKU, RELEASE_LOCKOWNER, SETCLIENTID_CONFIRM, lease expiry, and before and after the final expiry, the lock table of every file that ever carried a lock is read back with LOCKT for every unit by an observer owner of a client of its own (WRITE and READ) and by every owner that holds bytes (WRITE), maximal runs the model expects to be free of foreign locks as one range; every reply is compared with the per-byte model (status; a DENIED reply through the same check as above), so a lock that was not released, or one released too many, is seen at once. NON-TRIVIAL: two owners held locks on one file at the same time AND a split or merge of an owner's ranges happened AND a range ended at the maximum offset. Distinct by script hash.")
 	rapid.Check(t, func(rt *rapid.T) { runCase(t, rt, rec, profC20) })
 }
 
